@@ -30,6 +30,7 @@ class Tally(object):
         self.known = collections.defaultdict(lambda: {"count": 0, "examples": []})
         self.samples = collections.defaultdict(list)
         self.errors = []  # harness errors (exit 2)
+        self.extra = None  # driver-specific payload carried back from a worker (not merged)
 
     # -- recording -------------------------------------------------------
     def count(self, name, k=1):
@@ -112,6 +113,7 @@ class Tally(object):
         for k, v in d["samples"].items():
             self.samples[k] = v
         self.errors = d["errors"]
+        self.extra = d.get("extra")
 
     def ndistinct(self, setname):
         return len(self.sets.get(setname, ()))
